@@ -426,6 +426,31 @@ def shard_perms(acc, shard, nshards, max_n, heavy_n):
             acc.record("perm", check_perm, {"p": list(p), "heavy": len(p) <= heavy_n})
 
 
+def check_light(case):
+    """Listing / counting forms and the cheap named statistics alone, so that every permutation
+    of one further length can be swept."""
+    p = tuple(case)
+    P = Perm(p)
+    for name, got, want in _listing_checks(p, P):
+        if got != want or type(got) is not type(want):
+            return BAD("light_method_" + name, {"perm": list(p), "got": got, "want": want})
+    for i, name in enumerate(NAMES):
+        if name in S.STRONG and name not in S.F6_MODEL and name != "Holeyness of a permutation":
+            got = PS.get_by_index(i).func(P)
+            if got != S.STRONG[name](p):
+                return BAD("light_named_statistic_" + name.replace(" ", "_"), {"perm": list(p), "got": got, "want": S.STRONG[name](p)})
+    return OK(True, "light", key="light" + str(p))
+
+
+CHECKS["light"] = check_light
+
+
+def shard_light(acc, shard, nshards, n):
+    for i, p in enumerate(ref.perms(n)):
+        if i % nshards == shard:
+            acc.record("light", check_light, list(p))
+
+
 def shard_primes(acc, shard, nshards, top):
     for n in range(shard, top, nshards):
         acc.record("prime", check_prime, n)
@@ -549,6 +574,7 @@ def shard_generated(acc, shard, nshards, n_perm, n_bij, n_dist, n_equi, n_prime)
 
 
 def run(acc, tier):
+    engine.pmap(acc, shard_light, extra=((8,) if tier == "quick" else (9,)))
     if tier == "quick":
         engine.pmap(acc, shard_perms, extra=(7, 6))
         engine.pmap(acc, shard_primes, extra=(10000,))
